@@ -63,3 +63,161 @@ package opset13
 //@   tags C02
 //@   requires self != nil
 //@   modifies opstate(self)
+
+// ---------------------------------------------------------------------------------------
+// C03: the twelve elementwise binary operators
+
+//@ func (*Add).Apply
+//@   tags C03,C02
+//@   requires self != nil && len(inputs) == 2 && inputs[0] != nil && inputs[1] != nil
+//@   scope extents_positive: dims_positive(inputs[0]) && dims_positive(inputs[1])
+//@   ensures incompatible_refused: !bcompat(inputs[0], inputs[1]) ==> err != nil
+//@   ensures computed: bcompat(inputs[0], inputs[1]) && dtype(inputs[0]) == dtype(inputs[1]) && numeric(dtype(inputs[0])) ==> err == nil
+//@   ensures result_of_kernel: err == nil ==> len(result) == 1 && result[0] != nil && bshape_is(result[0], inputs[0], inputs[1]) &&
+//@          binkind(contents(result[0])) == 1 && dtype(result[0]) == dtype(inputs[0]) && dtype(inputs[0]) == dtype(inputs[1])
+
+//@ func (*Sub).Apply
+//@   tags C03,C02
+//@   requires self != nil && len(inputs) == 2 && inputs[0] != nil && inputs[1] != nil
+//@   scope extents_positive: dims_positive(inputs[0]) && dims_positive(inputs[1])
+//@   ensures incompatible_refused: !bcompat(inputs[0], inputs[1]) ==> err != nil
+//@   ensures computed: bcompat(inputs[0], inputs[1]) && dtype(inputs[0]) == dtype(inputs[1]) && numeric(dtype(inputs[0])) ==> err == nil
+//@   ensures result_of_kernel: err == nil ==> len(result) == 1 && result[0] != nil && bshape_is(result[0], inputs[0], inputs[1]) &&
+//@          binkind(contents(result[0])) == 2 && dtype(result[0]) == dtype(inputs[0]) && dtype(inputs[0]) == dtype(inputs[1])
+
+//@ func (*Mul).Apply
+//@   tags C03,C02
+//@   requires self != nil && len(inputs) == 2 && inputs[0] != nil && inputs[1] != nil
+//@   scope extents_positive: dims_positive(inputs[0]) && dims_positive(inputs[1])
+//@   ensures incompatible_refused: !bcompat(inputs[0], inputs[1]) ==> err != nil
+//@   ensures computed: bcompat(inputs[0], inputs[1]) && dtype(inputs[0]) == dtype(inputs[1]) && numeric(dtype(inputs[0])) ==> err == nil
+//@   ensures result_of_kernel: err == nil ==> len(result) == 1 && result[0] != nil && bshape_is(result[0], inputs[0], inputs[1]) &&
+//@          binkind(contents(result[0])) == 3 && dtype(result[0]) == dtype(inputs[0]) && dtype(inputs[0]) == dtype(inputs[1])
+
+//@ func (*Div).Apply
+//@   tags C03,C02
+//@   requires self != nil && len(inputs) == 2 && inputs[0] != nil && inputs[1] != nil
+//@   scope extents_positive: dims_positive(inputs[0]) && dims_positive(inputs[1])
+//@   ensures incompatible_refused: !bcompat(inputs[0], inputs[1]) ==> err != nil
+//@   ensures computed: bcompat(inputs[0], inputs[1]) && dtype(inputs[0]) == dtype(inputs[1]) && isfloat(dtype(inputs[0])) ==> err == nil
+//@   ensures result_of_kernel: err == nil ==> len(result) == 1 && result[0] != nil && bshape_is(result[0], inputs[0], inputs[1]) &&
+//@          binkind(contents(result[0])) == 4 && dtype(result[0]) == dtype(inputs[0]) && dtype(inputs[0]) == dtype(inputs[1])
+
+//@ func (*Greater).Apply
+//@   tags C03,C02
+//@   requires self != nil && len(inputs) == 2 && inputs[0] != nil && inputs[1] != nil
+//@   scope extents_positive: dims_positive(inputs[0]) && dims_positive(inputs[1])
+//@   ensures incompatible_refused: !bcompat(inputs[0], inputs[1]) ==> err != nil
+//@   ensures computed: bcompat(inputs[0], inputs[1]) && dtype(inputs[0]) == dtype(inputs[1]) && ordered(dtype(inputs[0])) ==> err == nil
+//@   ensures result_of_kernel: err == nil ==> len(result) == 1 && result[0] != nil && bshape_is(result[0], inputs[0], inputs[1]) &&
+//@          binkind(contents(result[0])) == 5 && dtype(result[0]) == Bool && dtype(inputs[0]) == dtype(inputs[1])
+
+//@ func (*GreaterOrEqual).Apply
+//@   tags C03,C02
+//@   requires self != nil && len(inputs) == 2 && inputs[0] != nil && inputs[1] != nil
+//@   scope extents_positive: dims_positive(inputs[0]) && dims_positive(inputs[1])
+//@   ensures incompatible_refused: !bcompat(inputs[0], inputs[1]) ==> err != nil
+//@   ensures computed: bcompat(inputs[0], inputs[1]) && dtype(inputs[0]) == dtype(inputs[1]) && ordered(dtype(inputs[0])) ==> err == nil
+//@   ensures result_of_kernel: err == nil ==> len(result) == 1 && result[0] != nil && bshape_is(result[0], inputs[0], inputs[1]) &&
+//@          binkind(contents(result[0])) == 6 && dtype(result[0]) == Bool && dtype(inputs[0]) == dtype(inputs[1])
+
+//@ func (*Less).Apply
+//@   tags C03,C02
+//@   requires self != nil && len(inputs) == 2 && inputs[0] != nil && inputs[1] != nil
+//@   scope extents_positive: dims_positive(inputs[0]) && dims_positive(inputs[1])
+//@   ensures incompatible_refused: !bcompat(inputs[0], inputs[1]) ==> err != nil
+//@   ensures computed: bcompat(inputs[0], inputs[1]) && dtype(inputs[0]) == dtype(inputs[1]) && ordered(dtype(inputs[0])) ==> err == nil
+//@   ensures result_of_kernel: err == nil ==> len(result) == 1 && result[0] != nil && bshape_is(result[0], inputs[0], inputs[1]) &&
+//@          binkind(contents(result[0])) == 7 && dtype(result[0]) == Bool && dtype(inputs[0]) == dtype(inputs[1])
+
+//@ func (*LessOrEqual).Apply
+//@   tags C03,C02
+//@   requires self != nil && len(inputs) == 2 && inputs[0] != nil && inputs[1] != nil
+//@   scope extents_positive: dims_positive(inputs[0]) && dims_positive(inputs[1])
+//@   ensures incompatible_refused: !bcompat(inputs[0], inputs[1]) ==> err != nil
+//@   ensures computed: bcompat(inputs[0], inputs[1]) && dtype(inputs[0]) == dtype(inputs[1]) && ordered(dtype(inputs[0])) ==> err == nil
+//@   ensures result_of_kernel: err == nil ==> len(result) == 1 && result[0] != nil && bshape_is(result[0], inputs[0], inputs[1]) &&
+//@          binkind(contents(result[0])) == 8 && dtype(result[0]) == Bool && dtype(inputs[0]) == dtype(inputs[1])
+
+//@ func (*Equal).Apply
+//@   tags C03,C02
+//@   requires self != nil && len(inputs) == 2 && inputs[0] != nil && inputs[1] != nil
+//@   scope extents_positive: dims_positive(inputs[0]) && dims_positive(inputs[1])
+//@   ensures incompatible_refused: !bcompat(inputs[0], inputs[1]) ==> err != nil
+//@   ensures computed: bcompat(inputs[0], inputs[1]) && dtype(inputs[0]) == dtype(inputs[1]) && true ==> err == nil
+//@   ensures result_of_kernel: err == nil ==> len(result) == 1 && result[0] != nil && bshape_is(result[0], inputs[0], inputs[1]) &&
+//@          binkind(contents(result[0])) == 9 && dtype(result[0]) == Bool && dtype(inputs[0]) == dtype(inputs[1])
+
+//@ func (*And).Apply
+//@   tags C03,C02
+//@   requires self != nil && len(inputs) == 2 && inputs[0] != nil && inputs[1] != nil
+//@   scope extents_positive: dims_positive(inputs[0]) && dims_positive(inputs[1])
+//@   ensures incompatible_refused: !bcompat(inputs[0], inputs[1]) ==> err != nil
+//@   ensures computed: bcompat(inputs[0], inputs[1]) && dtype(inputs[0]) == Bool && dtype(inputs[1]) == Bool ==> err == nil
+//@   ensures result_shape: err == nil ==> len(result) == 1 && result[0] != nil && bshape_is(result[0], inputs[0], inputs[1]) && dtype(result[0]) == Bool
+
+//@ func (*Or).Apply
+//@   tags C03,C02
+//@   requires self != nil && len(inputs) == 2 && inputs[0] != nil && inputs[1] != nil
+//@   scope extents_positive: dims_positive(inputs[0]) && dims_positive(inputs[1])
+//@   ensures incompatible_refused: !bcompat(inputs[0], inputs[1]) ==> err != nil
+//@   ensures computed: bcompat(inputs[0], inputs[1]) && dtype(inputs[0]) == Bool && dtype(inputs[1]) == Bool ==> err == nil
+//@   ensures result_shape: err == nil ==> len(result) == 1 && result[0] != nil && bshape_is(result[0], inputs[0], inputs[1]) && dtype(result[0]) == Bool
+
+//@ func (*Xor).Apply
+//@   tags C03,C02
+//@   requires self != nil && len(inputs) == 2 && inputs[0] != nil && inputs[1] != nil
+//@   scope extents_positive: dims_positive(inputs[0]) && dims_positive(inputs[1])
+//@   ensures incompatible_refused: !bcompat(inputs[0], inputs[1]) ==> err != nil
+//@   ensures computed: bcompat(inputs[0], inputs[1]) && dtype(inputs[0]) == Bool && dtype(inputs[1]) == Bool ==> err == nil
+//@   ensures result_shape: err == nil ==> len(result) == 1 && result[0] != nil && bshape_is(result[0], inputs[0], inputs[1]) && dtype(result[0]) == Bool
+
+// the type gates of the binary operators admit the element types the property names
+
+//@ func (*Add).GetInputTypeConstraints
+//@   tags C03
+//@   ensures len(result) == 2 && (exists j :: 0 <= j && j < len(result[0]) && result[0][j] == Float32) && (exists j :: 0 <= j && j < len(result[0]) && result[0][j] == Float64) && (exists j :: 0 <= j && j < len(result[0]) && result[0][j] == Int32) && (exists j :: 0 <= j && j < len(result[0]) && result[0][j] == Int64) && (exists j :: 0 <= j && j < len(result[1]) && result[1][j] == Float32) && (exists j :: 0 <= j && j < len(result[1]) && result[1][j] == Float64) && (exists j :: 0 <= j && j < len(result[1]) && result[1][j] == Int32) && (exists j :: 0 <= j && j < len(result[1]) && result[1][j] == Int64)
+
+//@ func (*Sub).GetInputTypeConstraints
+//@   tags C03
+//@   ensures len(result) == 2 && (exists j :: 0 <= j && j < len(result[0]) && result[0][j] == Float32) && (exists j :: 0 <= j && j < len(result[0]) && result[0][j] == Float64) && (exists j :: 0 <= j && j < len(result[0]) && result[0][j] == Int32) && (exists j :: 0 <= j && j < len(result[0]) && result[0][j] == Int64) && (exists j :: 0 <= j && j < len(result[1]) && result[1][j] == Float32) && (exists j :: 0 <= j && j < len(result[1]) && result[1][j] == Float64) && (exists j :: 0 <= j && j < len(result[1]) && result[1][j] == Int32) && (exists j :: 0 <= j && j < len(result[1]) && result[1][j] == Int64)
+
+//@ func (*Mul).GetInputTypeConstraints
+//@   tags C03
+//@   ensures len(result) == 2 && (exists j :: 0 <= j && j < len(result[0]) && result[0][j] == Float32) && (exists j :: 0 <= j && j < len(result[0]) && result[0][j] == Float64) && (exists j :: 0 <= j && j < len(result[0]) && result[0][j] == Int32) && (exists j :: 0 <= j && j < len(result[0]) && result[0][j] == Int64) && (exists j :: 0 <= j && j < len(result[1]) && result[1][j] == Float32) && (exists j :: 0 <= j && j < len(result[1]) && result[1][j] == Float64) && (exists j :: 0 <= j && j < len(result[1]) && result[1][j] == Int32) && (exists j :: 0 <= j && j < len(result[1]) && result[1][j] == Int64)
+
+//@ func (*Div).GetInputTypeConstraints
+//@   tags C03
+//@   ensures len(result) == 2 && (exists j :: 0 <= j && j < len(result[0]) && result[0][j] == Float32) && (exists j :: 0 <= j && j < len(result[0]) && result[0][j] == Float64) && (exists j :: 0 <= j && j < len(result[0]) && result[0][j] == Int32) && (exists j :: 0 <= j && j < len(result[0]) && result[0][j] == Int64) && (exists j :: 0 <= j && j < len(result[1]) && result[1][j] == Float32) && (exists j :: 0 <= j && j < len(result[1]) && result[1][j] == Float64) && (exists j :: 0 <= j && j < len(result[1]) && result[1][j] == Int32) && (exists j :: 0 <= j && j < len(result[1]) && result[1][j] == Int64)
+
+//@ func (*Greater).GetInputTypeConstraints
+//@   tags C03
+//@   ensures len(result) == 2 && (exists j :: 0 <= j && j < len(result[0]) && result[0][j] == Float32) && (exists j :: 0 <= j && j < len(result[0]) && result[0][j] == Float64) && (exists j :: 0 <= j && j < len(result[0]) && result[0][j] == Int32) && (exists j :: 0 <= j && j < len(result[0]) && result[0][j] == Int64) && (exists j :: 0 <= j && j < len(result[1]) && result[1][j] == Float32) && (exists j :: 0 <= j && j < len(result[1]) && result[1][j] == Float64) && (exists j :: 0 <= j && j < len(result[1]) && result[1][j] == Int32) && (exists j :: 0 <= j && j < len(result[1]) && result[1][j] == Int64)
+
+//@ func (*GreaterOrEqual).GetInputTypeConstraints
+//@   tags C03
+//@   ensures len(result) == 2 && (exists j :: 0 <= j && j < len(result[0]) && result[0][j] == Float32) && (exists j :: 0 <= j && j < len(result[0]) && result[0][j] == Float64) && (exists j :: 0 <= j && j < len(result[0]) && result[0][j] == Int32) && (exists j :: 0 <= j && j < len(result[0]) && result[0][j] == Int64) && (exists j :: 0 <= j && j < len(result[1]) && result[1][j] == Float32) && (exists j :: 0 <= j && j < len(result[1]) && result[1][j] == Float64) && (exists j :: 0 <= j && j < len(result[1]) && result[1][j] == Int32) && (exists j :: 0 <= j && j < len(result[1]) && result[1][j] == Int64)
+
+//@ func (*Less).GetInputTypeConstraints
+//@   tags C03
+//@   ensures len(result) == 2 && (exists j :: 0 <= j && j < len(result[0]) && result[0][j] == Float32) && (exists j :: 0 <= j && j < len(result[0]) && result[0][j] == Float64) && (exists j :: 0 <= j && j < len(result[0]) && result[0][j] == Int32) && (exists j :: 0 <= j && j < len(result[0]) && result[0][j] == Int64) && (exists j :: 0 <= j && j < len(result[1]) && result[1][j] == Float32) && (exists j :: 0 <= j && j < len(result[1]) && result[1][j] == Float64) && (exists j :: 0 <= j && j < len(result[1]) && result[1][j] == Int32) && (exists j :: 0 <= j && j < len(result[1]) && result[1][j] == Int64)
+
+//@ func (*LessOrEqual).GetInputTypeConstraints
+//@   tags C03
+//@   ensures len(result) == 2 && (exists j :: 0 <= j && j < len(result[0]) && result[0][j] == Float32) && (exists j :: 0 <= j && j < len(result[0]) && result[0][j] == Float64) && (exists j :: 0 <= j && j < len(result[0]) && result[0][j] == Int32) && (exists j :: 0 <= j && j < len(result[0]) && result[0][j] == Int64) && (exists j :: 0 <= j && j < len(result[1]) && result[1][j] == Float32) && (exists j :: 0 <= j && j < len(result[1]) && result[1][j] == Float64) && (exists j :: 0 <= j && j < len(result[1]) && result[1][j] == Int32) && (exists j :: 0 <= j && j < len(result[1]) && result[1][j] == Int64)
+
+//@ func (*Equal).GetInputTypeConstraints
+//@   tags C03
+//@   ensures len(result) == 2 && (exists j :: 0 <= j && j < len(result[0]) && result[0][j] == Float32) && (exists j :: 0 <= j && j < len(result[0]) && result[0][j] == Float64) && (exists j :: 0 <= j && j < len(result[0]) && result[0][j] == Int32) && (exists j :: 0 <= j && j < len(result[0]) && result[0][j] == Int64) && (exists j :: 0 <= j && j < len(result[1]) && result[1][j] == Float32) && (exists j :: 0 <= j && j < len(result[1]) && result[1][j] == Float64) && (exists j :: 0 <= j && j < len(result[1]) && result[1][j] == Int32) && (exists j :: 0 <= j && j < len(result[1]) && result[1][j] == Int64)
+
+//@ func (*And).GetInputTypeConstraints
+//@   tags C03
+//@   ensures len(result) == 2 && (exists j :: 0 <= j && j < len(result[0]) && result[0][j] == Bool) && (exists j :: 0 <= j && j < len(result[1]) && result[1][j] == Bool)
+
+//@ func (*Or).GetInputTypeConstraints
+//@   tags C03
+//@   ensures len(result) == 2 && (exists j :: 0 <= j && j < len(result[0]) && result[0][j] == Bool) && (exists j :: 0 <= j && j < len(result[1]) && result[1][j] == Bool)
+
+//@ func (*Xor).GetInputTypeConstraints
+//@   tags C03
+//@   ensures len(result) == 2 && (exists j :: 0 <= j && j < len(result[0]) && result[0][j] == Bool) && (exists j :: 0 <= j && j < len(result[1]) && result[1][j] == Bool)
